@@ -133,7 +133,9 @@ func (c *Cond) Signal() {
 	c.edges.Add(1)
 	if c.nw > 0 {
 		g.threads[c.w[0]].released = true
-		copy(c.w[:], c.w[1:c.nw])
+		for k := int32(0); k+1 < c.nw; k++ {
+			c.w[k] = c.w[k+1]
+		}
 		c.nw--
 	}
 }
